@@ -237,3 +237,309 @@ def use_refs(c):
             if refs.setdefault(k, v) != v:
                 same = False
     return {'built': built, 'added': added, 'same': same, 'keys': keys}
+
+
+# ------------------------------------------------------------------ monitor: full renders with generated images
+
+def make_image(spec):
+    """spec: kind png|jpeg|svg ...  -> (bytes, mime)"""
+    import random
+    from PIL import Image
+    rnd = random.Random(spec['seed'])
+    if spec['kind'] == 'svg':
+        attrs = ''
+        if spec.get('w') is not None:
+            attrs += ' width="%s"' % spec['w']
+        if spec.get('h') is not None:
+            attrs += ' height="%s"' % spec['h']
+        if spec.get('vb') is not None:
+            attrs += ' viewBox="0 0 %s %s"' % tuple(spec['vb'])
+        vw, vh = spec['vb'] if spec.get('vb') else (spec.get('w') or 300, spec.get('h') or 150)
+        body = '<rect x="0" y="0" width="%s" height="%s" fill="#%06x"/>' % (vw, vh, rnd.randrange(1, 0xffffff))
+        return ('<svg xmlns="http://www.w3.org/2000/svg"%s>%s</svg>' % (attrs, body)).encode(), 'image/svg+xml'
+    w, h, mode = spec['w'], spec['h'], spec['mode']
+    bands = {'1': 1, 'L': 1, 'LA': 2, 'RGB': 3, 'RGBA': 4, 'P': 1, 'CMYK': 4}[mode]
+    if mode == '1':
+        im = Image.new('1', (w, h))
+        im.putdata([rnd.choice([0, 255]) for _ in range(w * h)])
+    elif mode == 'P':
+        im = Image.new('P', (w, h))
+        im.putpalette([rnd.randrange(256) for _ in range(768)])
+        im.putdata([rnd.randrange(256) for _ in range(w * h)])
+    else:
+        data = bytes(rnd.randrange(256) for _ in range(w * h * bands))
+        im = Image.frombytes(mode, (w, h), data)
+    buf = io.BytesIO()
+    if spec['kind'] == 'png':
+        kw = {}
+        if mode == 'P' and spec.get('trns'):
+            kw['transparency'] = rnd.randrange(256)
+        im.save(buf, 'PNG', **kw)
+        return buf.getvalue(), 'image/png'
+    im.save(buf, 'JPEG', quality=spec.get('quality', 90))
+    return buf.getvalue(), 'image/jpeg'
+
+
+def _mat_mul(m, n):
+    """PDF matrices as (a, b, c, d, e, f); result = m x n (m applied first)"""
+    a, b, c, d, e, f = m
+    A, B, C, D, E, Fv = n
+    return (a * A + b * C, a * B + b * D, c * A + d * C, c * B + d * D, e * A + f * C + E, e * B + f * D + Fv)
+
+
+def _walk_ops(doc, pdfread, data, resources, ctm, out, base, depth=0, inpattern=None):
+    """interpret q/Q/cm/Do/scn in a content stream; out gets ('image', objnum, ctm, inpattern) records"""
+    stack = []
+    cur_pattern = None
+    xobjs = doc.resolve(resources.get('XObject')) or {} if resources else {}
+    pats = doc.resolve(resources.get('Pattern')) or {} if resources else {}
+    for op, args in pdfread.tokenize_content(data):
+        if op == 'q':
+            stack.append(ctm)
+        elif op == 'Q':
+            ctm = stack.pop()
+        elif op == 'cm':
+            ctm = _mat_mul(tuple(float(x) for x in args), ctm)
+        elif op == 'Do':
+            ref = xobjs.get(str(args[0]))
+            obj = doc.resolve(ref)
+            if obj is None:
+                continue
+            if obj.dict.get('Subtype') == 'Image':
+                out.append(('image', obj.num if obj.num is not None else getattr(ref, 'num', None), ctm, inpattern))
+            elif obj.dict.get('Subtype') == 'Form' and depth < 8:
+                m = obj.dict.get('Matrix')
+                c2 = _mat_mul(tuple(float(x) for x in doc.resolve(m)), ctm) if m else ctm
+                _walk_ops(doc, pdfread, doc.stream_data(obj), doc.resolve(obj.dict.get('Resources')) or {}, c2, out, base,
+                          depth + 1, inpattern)
+        elif op in ('scn', 'SCN') and args and isinstance(args[-1], str) and str(args[-1]) in pats:
+            cur_pattern = str(args[-1])
+        elif op == 're' and cur_pattern is not None:
+            out.append(('fillrect', cur_pattern, tuple(float(x) for x in args), ctm))
+        elif op in ('f', 'f*', 'F') and cur_pattern is not None and depth < 8:
+            pobj = doc.resolve(pats[cur_pattern])
+            pm = tuple(float(x) for x in doc.resolve(pobj.dict['Matrix']))
+            info = {'name': cur_pattern, 'xstep': float(pobj.dict['XStep']), 'ystep': float(pobj.dict['YStep']),
+                    'bbox': [float(x) for x in doc.resolve(pobj.dict['BBox'])], 'matrix': pm}
+            _walk_ops(doc, pdfread, doc.stream_data(pobj), doc.resolve(pobj.dict.get('Resources')) or {},
+                      _mat_mul(pm, base), out, base, depth + 1, info)
+            cur_pattern = None
+    return out
+
+
+def _unpredict_png(data, columns, colors):
+    """undo PNG predictors (8 bits per component) -> raw bytes"""
+    bpp = colors
+    stride = columns * colors
+    out = bytearray()
+    prev = bytearray(stride)
+    pos = 0
+    while pos < len(data):
+        ft = data[pos]
+        row = bytearray(data[pos + 1:pos + 1 + stride])
+        pos += 1 + stride
+        for i in range(len(row)):
+            a = row[i - bpp] if i >= bpp else 0
+            b = prev[i]
+            c = prev[i - bpp] if i >= bpp else 0
+            if ft == 0:
+                p = 0
+            elif ft == 1:
+                p = a
+            elif ft == 2:
+                p = b
+            elif ft == 3:
+                p = (a + b) // 2
+            else:
+                pa, pb, pc = abs(b - c), abs(a - c), abs(a + b - 2 * c)
+                p = a if pa <= pb and pa <= pc else (b if pb <= pc else c)
+            row[i] = (row[i] + p) & 255
+        out += row
+        prev = row
+    return bytes(out)
+
+
+def _decode_xobject(doc, obj):
+    """-> dict(mode, size, pixels bytes, alpha bytes or None, filter)"""
+    from PIL import Image
+    d = obj.dict
+    w, h = int(d['Width']), int(d['Height'])
+    cs = str(doc.resolve(d.get('ColorSpace')))
+    mode = {'DeviceRGB': 'RGB', 'DeviceGray': 'L', 'DeviceCMYK': 'CMYK'}.get(cs, cs)
+    filt = str(doc.resolve(d.get('Filter')))
+    alpha = None
+    if filt == 'DCTDecode':
+        im = Image.open(io.BytesIO(obj.raw))
+        im.load()
+        pix = im.tobytes()
+        mode_out = im.mode
+        return {'mode': mode_out, 'cs': mode, 'size': [im.width, im.height], 'declared': [w, h], 'pix': pix, 'alpha': None,
+                'filter': filt, 'raw': obj.raw, 'decode': d.get('Decode'), 'app14': getattr(im, 'app', {}).get('APP14') is not None}
+    parms = doc.resolve(d.get('DecodeParms')) or {}
+    raw = zlib.decompress(obj.raw)
+    colors = int(parms.get('Colors', 1))
+    pix = _unpredict_png(raw, int(parms.get('Columns', w)), colors) if int(parms.get('Predictor', 1)) >= 10 else raw
+    sm = doc.resolve(d.get('SMask'))
+    if sm is not None:
+        sp = doc.resolve(sm.dict.get('DecodeParms')) or {}
+        sraw = zlib.decompress(sm.raw)
+        alpha = _unpredict_png(sraw, int(sp.get('Columns', w)), 1) if int(sp.get('Predictor', 1)) >= 10 else sraw
+    return {'mode': mode, 'cs': mode, 'size': [w, h], 'declared': [w, h], 'pix': pix, 'alpha': alpha, 'filter': filt,
+            'colors': colors, 'bpc': int(d.get('BitsPerComponent', 0))}
+
+
+def _source_pixels(data, orientation=None):
+    """Pillow's decoding of the source, in the colour model the PDF must show: (mode, size, pixel bytes, alpha bytes)"""
+    from PIL import Image
+    im = Image.open(io.BytesIO(data))
+    im.load()
+    if 'transparency' in im.info:
+        im = im.convert('RGBA')
+    elif im.mode in ('1', 'P', 'I'):
+        im = im.convert('RGB')
+    alpha = None
+    if im.mode in ('RGBA', 'LA'):
+        alpha = im.getchannel('A').tobytes()
+        im = im.convert(im.mode[:-1])
+    return im.mode, [im.width, im.height], im.tobytes(), alpha
+
+
+_TRACE = {'owner': None, 'log': None, 'patched': False}
+
+
+def _patch_draw():
+    """observation points: which box / background layer each RasterImage.draw call belongs to (call order = order of
+    the image `Do` operators in the content streams)"""
+    if _TRACE['patched']:
+        return
+    from weasyprint import draw, images
+    orig_rb, orig_bg, orig_draw = draw.draw_replacedbox, draw.draw_background_image, images.RasterImage.draw
+
+    def rb(stream, box):
+        _TRACE['owner'] = ('box', id(box))
+        try:
+            return orig_rb(stream, box)
+        finally:
+            _TRACE['owner'] = None
+
+    def bg(stream, layer, image_rendering):
+        _TRACE['owner'] = ('bg', id(layer))
+        try:
+            return orig_bg(stream, layer, image_rendering)
+        finally:
+            _TRACE['owner'] = None
+
+    def rdraw(self, stream, concrete_width, concrete_height, image_rendering):
+        if _TRACE['log'] is not None and not (self.width <= 0 or self.height <= 0):
+            _TRACE['log'].append((_TRACE['owner'], concrete_width, concrete_height))
+        return orig_draw(self, stream, concrete_width, concrete_height, image_rendering)
+
+    draw.draw_replacedbox, draw.draw_background_image, images.RasterImage.draw = rb, bg, rdraw
+    _TRACE['patched'] = True
+
+
+def render_images(case):
+    """case: images {name: spec}, html, options -> observations (see p_c13.monitor)"""
+    import logging
+    from weasyprint import HTML
+    from weasyprint.formatting_structure import boxes
+    import pdfread
+    _patch_draw()
+    blobs = {name: make_image(spec) for name, spec in case['images'].items()}
+    fetched = []
+
+    def fetcher(url, *a, **k):
+        name = url.rsplit('/', 1)[-1]
+        fetched.append(name)
+        data, mime = blobs[name]
+        return {'string': data, 'mime_type': mime}
+
+    # image options (optimize_images, jpeg_quality, dpi) act when the images are loaded, i.e. at render time
+    ropts = {k: v for k, v in case.get('pdf_options', {}).items() if k in ('optimize_images', 'jpeg_quality', 'dpi')}
+    doc = HTML(string=case['html'], url_fetcher=fetcher, base_url='http://img.test/').render(**ropts)
+    obs = {'boxes': [], 'bgs': [], 'fetched': fetched}
+
+    def walk(b, page_index):
+        b = getattr(b, '_box', b)
+        eid = b.element.get('id') if getattr(b, 'element', None) is not None else None
+        if isinstance(b, boxes.ReplacedBox):
+            iw, ih, ir = b.replacement.get_intrinsic_size(b.style['image_resolution'], b.style['font_size'])
+            obs['boxes'].append(dict(
+                key=id(b), id=eid, tag=b.element_tag, page=page_index, w=b.width, h=b.height, cx=b.content_box_x(), cy=b.content_box_y(),
+                intrinsic=[iw, ih, ir], kind=type(b.replacement).__name__, fit=b.style['object_fit'],
+                visible=b.style['visibility'] == 'visible'))
+        bg = getattr(b, 'background', None)
+        if bg is not None and eid is not None and eid.startswith('bg'):
+            for layer in bg.layers:
+                if layer.image is None:
+                    obs['bgs'].append(dict(id=eid, page=page_index, unused=True))
+                else:
+                    obs['bgs'].append(dict(key=id(layer), id=eid, page=page_index, unused=False, size=list(layer.size), position=list(layer.position),
+                                           positioning=list(layer.positioning_area), painting=list(layer.painting_area),
+                                           repeat=list(layer.repeat),
+                                           intrinsic=list(layer.image.get_intrinsic_size(b.style['image_resolution'], b.style['font_size']))))
+        for c in getattr(b, 'all_children', lambda: ())():
+            walk(c, page_index)
+
+    for pi, page in enumerate(doc.pages):
+        walk(page._page_box, pi)
+    _TRACE['log'] = []
+    try:
+        pdf = doc.write_pdf(**case.get('pdf_options', {}))
+    finally:
+        log, _TRACE['log'] = _TRACE['log'], None
+    obs['draw_log'] = [[o[0], o[1]] if o else None for o, _, _ in log]
+    d = pdfread.parse(pdf)
+    obs['pdf_problems'] = d.problems[:5]
+    draws = []
+    for pi, page in enumerate(d.pages()):
+        hpt = float(page['MediaBox'][3])
+        res = d.resolve(page.get('Resources')) or {}
+        out = _walk_ops(d, pdfread, d.page_content(page), res, (1, 0, 0, 1, 0, 0), [], (1, 0, 0, 1, 0, 0))
+        for rec in out:
+            if rec[0] != 'image':
+                continue
+            _, num, (a, b, c, dd, e, f), pat = rec
+            w, h = a / 0.75, dd / 0.75
+            draws.append(dict(page=pi, obj=num, skew=[b, c], x=e / 0.75, y=(hpt - f) / 0.75 - h, w=w, h=h,
+                              pattern=None if pat is None else dict(xstep=pat['xstep'], ystep=pat['ystep'], bbox=pat['bbox'])))
+    obs['draws'] = draws
+    # image XObjects in the file
+    xobjs = {}
+    smasks = set()
+    for num, o in d.objects.items():
+        if isinstance(o, pdfread.StreamObj) and o.dict.get('Subtype') == 'Image':
+            sm = o.dict.get('SMask')
+            if sm is not None:
+                smasks.add(sm.num)
+    for num, o in d.objects.items():
+        if isinstance(o, pdfread.StreamObj) and o.dict.get('Subtype') == 'Image' and num not in smasks:
+            try:
+                dec = _decode_xobject(d, o)
+            except Exception as exc:   # noqa
+                xobjs[num] = {'error': '%s: %s' % (type(exc).__name__, exc)}
+                continue
+            # which source?  match by exact pixels against every raster source
+            match = []
+            for name, spec in case['images'].items():
+                if spec['kind'] == 'svg':
+                    continue
+                data = blobs[name][0]
+                if dec['filter'] == 'DCTDecode':
+                    if dec['raw'] == data:
+                        match.append(name)
+                    continue
+                mode, size, pix, alpha = _source_pixels(data)
+                if mode == dec['mode'] and size == dec['size'] and pix == dec['pix'] and alpha == dec['alpha']:
+                    match.append(name)
+            xobjs[num] = {'mode': dec['mode'], 'size': dec['size'], 'filter': dec['filter'], 'has_alpha': dec['alpha'] is not None,
+                          'match': match, 'interpolate': bool(o.dict.get('Interpolate')),
+                          'decode': [float(x) for x in d.resolve(dec.get('decode'))] if dec.get('decode') else None,
+                          'app14': dec.get('app14'), 'bpc': dec.get('bpc'), 'cs': dec.get('cs')}
+    obs['xobjects'] = xobjs
+    return obs
+
+
+def dispatch(c):
+    """one worker pool for all the streams"""
+    return globals()[c['fn']](c['case'])
